@@ -16,6 +16,12 @@ import PybropsModel.Lemmas.CoancestryPerm
 import PybropsModel.Lemmas.CoancestryAxis
 import PybropsModel.Lemmas.CoancestryJitter
 import PybropsModel.Lemmas.CoancestryRound
+import PybropsModel.Lemmas.CoancestryKin
+import PybropsModel.Lemmas.CoancestryObj
+import PybropsModel.Lemmas.CoancestryInt
+import PybropsModel.Lemmas.CoancestryScale
+import PybropsModel.Lemmas.CoancestryPsd
+import PybropsModel.Lemmas.CoancestrySpecSound
 set_option autoImplicit false
 set_option linter.unusedSectionVars false
 
@@ -945,6 +951,345 @@ theorem kinship_half_underflow_counterexample :
       (Float.ofScientific 5 true 324 == 0.0) = false := by
   decide +kernel
 
+/-! ### round 3: factor 2 of the kinship inverse with the model's own elimination -/
+section round3
+variable {α : Type} [Field α] [LinearOrder α] [IsStrictOrderedRing α]
+
+/-- **`inverse("kinship") = 2 · inverse("coancestry")`**, with the model's Gauss–Jordan elimination on both
+    sides (no solver contract): whenever both succeed the results differ by the factor 2 in every entry. -/
+theorem inverse_kinship_is_twice (G H K : List (List α)) (n : Nat) (hG : Rect n n G)
+    (hH : inverseFmt false G = some H) (hK : inverseFmt true G = some K) :
+    Rect n n K ∧ ∀ i < n, ∀ j < n, entry K i j = 2 * entry H i j := by
+  obtain ⟨h1, h2⟩ := inverse_kinship_entries G H K n hG hH hK
+  refine ⟨h1, fun i hi j hj => ?_⟩
+  rw [h2 i hi j hj]; norm_num
+
+/-- **`min_inbreeding("kinship")`** — computed by the code as `0.5 · (1 / Σ inv(G))` — is `1 / Σ inv(K)` for the
+    kinship matrix `K = 0.5·G` itself: the same "direct linear-algebra evaluation" in either format. -/
+theorem min_inbreeding_kinship_is_direct (G K : List (List α)) (n : Nat) (hG : Rect n n G) (x : α)
+    (hx : minInbreeding true G = some x) (hK : inverseFmt true G = some K) :
+    x = 1 / sumAll K :=
+  min_inbreeding_kinship_direct G K n hG x hx hK
+
+/-- **`inverse("kinship") = 2 · inverse("coancestry")`, unconditionally.**  The elimination on `0.5·G` runs in
+    lock step with the one on `G` (same pivots), so the two calls succeed or fail together and the results differ
+    by the factor 2 — for every square matrix, singular ones included. -/
+theorem inverse_kinship_format (G : List (List α)) (n : Nat) (hG : Rect n n G) :
+    inverseFmt true G = (inverseFmt false G).map (mapMat (fun x => 2 * x)) := by
+  have hhalf : (half : α) ≠ 0 := by unfold half; norm_num
+  show inverse (mapMat (fun x => half * x) G) = (inverse G).map _
+  rw [inverse_scale_eq half hhalf G n hG]
+  congr 2
+  funext x
+  unfold half
+  field_simp
+  ring
+
+/-- **`min_inbreeding("kinship")` is the direct evaluation `1 / Σ inv(K)` on the kinship matrix**, as an equation
+    between the two optional results (both absent exactly for singular matrices) -/
+theorem min_inbreeding_kinship_format (G : List (List α)) (n : Nat) (hG : Rect n n G) :
+    minInbreeding true G = (inverseFmt true G).map minInbreedingOf := by
+  rw [inverse_kinship_format G n hG]
+  unfold minInbreeding inverseFmt asFormat
+  simp only [Bool.false_eq_true, if_false, Option.map_map]
+  congr 1
+  funext H
+  simp only [Function.comp, minInbreedingOf, fmt, if_true, sumAll_mapMat_mul, half]
+  by_cases hs : sumAll H = 0
+  · simp [hs]
+  · field_simp
+    norm_num
+
+/-- the hypothesis "positive semidefinite" of `min_inbreeding_is_min` cannot be dropped: for the indefinite
+    symmetric matrix [[1,2],[2,1]] the reported value 3/2 exceeds `cᵀGc = 1` at `c = (1, 0)` -/
+theorem min_inbreeding_indefinite_counterexample :
+    minInbreeding false ([[1, 2], [2, 1]] : List (List ℚ)) = some (3/2) ∧
+      quad 2 ([[1, 2], [2, 1]] : List (List ℚ)) (fun i => if i = 0 then 1 else 0) = 1 ∧
+      (∑ i ∈ range 2, (fun i => if i = 0 then (1:ℚ) else 0) i) = 1 := by
+  refine ⟨by decide +kernel, ?_, by simp [Finset.sum_range_succ]⟩
+  simp [quad, Finset.sum_range_succ, entry]
+
+/-! ### re-ordering the object (DenseSquareTaxaMatrix through C03's model) commutes with the estimators -/
+
+/-- **`from_gmat(gmat).reorder_taxa(is)` = `from_gmat(gmat re-ordered by is)`** for every estimator behind the
+    dispatch (class method, factory or subclass alike), any in-range index list `is`, with the frequencies /
+    weights in force held fixed: the values are `selectSq is`, both label columns are taken along, and the cached
+    group metadata are dropped on either side. -/
+theorem estimate_reorder_taxa_commutes (e : Estimator) (ploidy m : Nat) (w p : List α) (is : List Nat)
+    (X : List (List α)) (taxa grp : Option (List Int)) (gmeta : Option (LabelMat.Grp Int))
+    (h : ∀ i ∈ is, i < X.length) (G : List (List α)) (hG : estimate e ploidy m w p X = .ok G) :
+    ∃ G', estimate e ploidy m w p (Np.take is X) = .ok G' ∧
+      fromGmatObj (taxa.map (Np.take is)) (grp.map (Np.take is)) none (estimate e ploidy m w p (Np.take is X))
+        = .ok (toObj G' (taxa.map (Np.take is)) (grp.map (Np.take is)) none) ∧
+      reorderObj (is.map Int.ofNat) (toObj G taxa grp gmeta)
+        = .ok (toObj G' (taxa.map (Np.take is)) (grp.map (Np.take is)) none) := by
+  apply reorder_taxa_commutes (fun X => estimate e ploidy m w p X) _ _ is X taxa grp gmeta h G hG
+  · intro is X
+    cases e with
+    | molecular => exact molecular_take is ploidy m X
+    | vanraden => exact vanraden_take is ploidy p X
+    | yang => exact yangClosed_take is ploidy m p X
+    | gw => simp only [estimate]; rw [gw_take]; rfl
+  · intro X G hG
+    cases e with
+    | molecular => exact molecular_rows ploidy m X G hG
+    | vanraden => exact vanraden_rows ploidy p X G hG
+    | yang => exact yangClosed_rows ploidy m p X G hG
+    | gw => simp only [estimate] at hG; cases hG; exact gw_rows ploidy w p X
+
+/-- factories and user subclasses compute what the class method computes -/
+theorem factory_dispatch (e : Estimator) (ploidy m : Nat) (w p : List α) (X : List (List α)) :
+    Factory.fromGmat e ploidy m w p X = estimate e ploidy m w p X ∧
+      Subclass.fromGmat e ploidy m w p X = estimate e ploidy m w p X := ⟨rfl, rfl⟩
+
+/-- with sample-estimated frequencies Yang and the generalised weighted estimator still commute with every
+    *permutation* of the taxa (the estimate does not depend on the order) … -/
+theorem yang_estimated_perm_commutes (is : List Nat) (lab : Labels) (ploidy n m : Nat)
+    (X : List (List α)) (hperm : is.Perm (List.range X.length)) :
+    fromGmat (lab.select is) (yangClosed ploidy m (afreq ploidy n m (Np.take is X)) (Np.take is X))
+      = (fromGmat lab (yangClosed ploidy m (afreq ploidy n m X) X)).map (CMat.select is) := by
+  rw [afreq_take_perm ploidy n m is X hperm, yangClosed_take, fromGmat_map]
+
+theorem gw_estimated_perm_commutes (is : List Nat) (lab : Labels) (ploidy n m : Nat) (w : List α)
+    (X : List (List α)) (hperm : is.Perm (List.range X.length)) :
+    fromGmat (lab.select is) (.ok (gw ploidy w (afreq ploidy n m (Np.take is X)) (Np.take is X)))
+      = (fromGmat lab (.ok (gw ploidy w (afreq ploidy n m X) X))).map (CMat.select is) := by
+  rw [afreq_take_perm ploidy n m is X hperm, gw_take]; rfl
+
+/-- … but not with sub-selection (taxa {0, 2} of the worked example) -/
+theorem yang_estimated_subselect_counterexample :
+    (yangClosed 2 2 (afreq 2 2 2 (Np.take [0, 2] ([[1, 2], [1, 1], [0, 0]] : List (List ℚ))))
+        (Np.take [0, 2] ([[1, 2], [1, 1], [0, 0]] : List (List ℚ)))).toOption
+      ≠ ((yangClosed 2 2 (afreq 2 3 2 ([[1, 2], [1, 1], [0, 0]] : List (List ℚ)))
+        ([[1, 2], [1, 1], [0, 0]] : List (List ℚ))).map (selectSq [0, 2])).toOption := by
+  decide +kernel
+
+theorem gw_estimated_subselect_counterexample :
+    gw 2 [1, 2] (afreq 2 2 2 (Np.take [0, 2] ([[1, 2], [1, 2], [0, 0]] : List (List ℚ))))
+        (Np.take [0, 2] ([[1, 2], [1, 2], [0, 0]] : List (List ℚ)))
+      ≠ selectSq [0, 2] (gw 2 [1, 2] (afreq 2 3 2 ([[1, 2], [1, 2], [0, 0]] : List (List ℚ)))
+        ([[1, 2], [1, 2], [0, 0]] : List (List ℚ))) := by
+  decide +kernel
+
+/-! ### the dtype contract of the molecular estimator (integer accumulation) -/
+
+/-- **Integer width.**  `from_gmat` fetches the counts with `tacount(int)` and forms `X @ X.T` in that integer type.
+    For allele counts in `0..ploidy`, any type that represents `[-B, B]` faithfully and at most `B` markers the
+    integer part never wraps, so the result is `molecular` of the counts — twice the mean IBS probability by
+    `molecular_eq_twice_ibs_counts`. -/
+theorem molecular_int_width_contract (wrap : Int → Int) (B : Int) (hw : NoWrapUpTo wrap B) (ploidy n m : Nat)
+    (X : List (List Int)) (hX : Rect n m X) (hpl : ploidy = 1 ∨ ploidy = 2) (hm : 0 < m) (hmB : (m : Int) ≤ B)
+    (hrange : ∀ r ∈ X, ∀ x ∈ r, 0 ≤ x ∧ x ≤ (ploidy : Int)) :
+    ∃ G : List (List α), molecularW wrap ploidy m X = .ok G ∧ Rect n n G ∧
+      ∀ i < n, ∀ j < n, entry G i j = molecularFormula m (ibsCount ploidy (mapMat (Int.cast : Int → α) X)) i j := by
+  rw [molecularW_eq_molecular wrap B hw ploidy n m X hX hpl hmB hrange]
+  exact molecular_eq_twice_ibs_counts ploidy n m _ (hX.mapMat _) hpl hm
+
+/-- the native width (64-bit two's complement) is safe for every panel of fewer than 2⁶³ markers -/
+theorem molecular_native_width (ploidy n m : Nat) (X : List (List Int)) (hX : Rect n m X)
+    (hpl : ploidy = 1 ∨ ploidy = 2) (hm : 0 < m) (hm63 : (m : Int) ≤ 2 ^ 63 - 1)
+    (hrange : ∀ r ∈ X, ∀ x ∈ r, 0 ≤ x ∧ x ≤ (ploidy : Int)) :
+    ∃ G : List (List α), molecularW (wrapBits 64) ploidy m X = .ok G ∧ Rect n n G ∧
+      ∀ i < n, ∀ j < n, entry G i j = molecularFormula m (ibsCount ploidy (mapMat (Int.cast : Int → α) X)) i j :=
+  molecular_int_width_contract (wrapBits 64) (2 ^ 63 - 1) (wrapBits_noWrap 64 (by norm_num)) ploidy n m X hX hpl hm
+    hm63 hrange
+
+/- FULL STATEMENT (false for a narrower fetch, see the counterexample): the molecular matrix computed with
+   8-bit integer accumulation equals the formula for every marker count.  It holds up to 127 markers
+   (`molecular_int8_partial`); two fully homozygous lines over 128 markers give 1 + (−128)/128 = 0 instead of 2. -/
+
+theorem molecular_int8_partial (ploidy n m : Nat) (X : List (List Int)) (hX : Rect n m X)
+    (hpl : ploidy = 1 ∨ ploidy = 2) (hm : 0 < m) (hm127 : m ≤ 127)
+    (hrange : ∀ r ∈ X, ∀ x ∈ r, 0 ≤ x ∧ x ≤ (ploidy : Int)) :
+    ∃ G : List (List α), molecularW (wrapBits 8) ploidy m X = .ok G ∧ Rect n n G ∧
+      ∀ i < n, ∀ j < n, entry G i j = molecularFormula m (ibsCount ploidy (mapMat (Int.cast : Int → α) X)) i j :=
+  molecular_int_width_contract (wrapBits 8) (2 ^ 7 - 1) (wrapBits_noWrap 8 (by norm_num)) ploidy n m X hX hpl hm
+    (by norm_num; exact_mod_cast hm127) hrange
+
+theorem molecular_int8_counterexample :
+    (molecularW (α := ℚ) (wrapBits 8) 2 128 [List.replicate 128 2]).toOption = some [[0]] ∧
+      (molecularW (α := ℚ) (wrapBits 64) 2 128 [List.replicate 128 2]).toOption = some [[2]] := by
+  decide +kernel
+
+/-! ### the Boolean oracles of the Spec mean what the theorems above conclude -/
+
+open Spec in
+/-- **The Spec's positive-semidefiniteness test is sound.**  `psdShift shift G = true` (the check
+    `psd_up_to_rounding` with `shift = 10⁻⁹·scale`, and the `is_positive_semidefinite` contract checks) certifies
+    `vᵀ G v + shift·‖v‖² ≥ 0` for every vector `v`: the quadratic form of the conclusions of `molecular_psd`,
+    `vanraden_psd`, `yang_psd`, `gw_psd`, up to the stated slack. -/
+theorem spec_psd_sound (shift : ℚ) (G : List (List ℚ)) (n : Nat) (hG : Rect n n G)
+    (h : Spec.psdShift shift G = true) (v : Nat → ℚ) : 0 ≤ quad n G v + shift * ∑ i ∈ range n, v i ^ 2 :=
+  psdShift_sound shift G n hG h v
+
+open Spec in
+/-- exact agreement passes every tolerant comparison of the Spec (non-negative absolute slack) -/
+theorem spec_close_refl (rel abs : ℚ) (h : 0 ≤ abs) (x : ℚ) (l : List ℚ) (A : List (List ℚ)) :
+    Spec.closeR rel abs x x = true ∧ Spec.closeL rel abs l l = true ∧ Spec.closeM rel abs A A = true :=
+  ⟨closeR_self rel abs x h, closeL_self rel abs l h, closeM_self rel abs A h⟩
+
+open Spec in
+/-- **The summaries Spec is sound: the model's own report passes it.**  For every square rational matrix and either
+    format, if the model's `DenseCoancestryMatrix` reports `s` (`summOfModel`: every summary computed on the stored
+    matrix and scaled as the code does, the inverse of the view, the minimum inbreeding from the inverse of the stored
+    matrix), then every check of `Spec.specSumm` — exact view, extreme values per axis, means, maximum inbreeding,
+    inverse against the exact elimination and `B·B⁻¹ = I`, minimum inbreeding `1/Σ B⁻¹` — holds: the oracle asks
+    for nothing the theorems above do not give. -/
+theorem spec_summ_sound (kin : Bool) (G : List (List ℚ)) (n : Nat) (hG : Rect n n G) (s : Spec.SummObs)
+    (hs : Spec.summOfModel kin G = some s) (tag : String) (symmetric : Bool) :
+    (Spec.specSumm kin G s tag symmetric).all (fun c => c.ok) = true := by
+  unfold Spec.summOfModel at hs
+  simp only [Option.bind_eq_bind, Option.bind_eq_some_iff, Option.pure_def, Option.some.injEq] at hs
+  obtain ⟨mxA, h1, mxR, h2, mxC, h3, mnA, h4, mnR, h5, mnC, h6, mib, h7, rfl⟩ := hs
+  cases kin with
+  | false =>
+    have hf : (fmt false : ℚ → ℚ) = fun x => x := by funext x; simp [fmt]
+    apply specSumm_ok_of false G _ tag symmetric n
+    all_goals simp only [Bool.false_eq_true, if_false, hf, List.map_id', asFormat]
+    · exact hG
+    · exact h1.symm
+    · exact h2.symm
+    · exact h3.symm
+    · exact h4.symm
+    · exact h5.symm
+    · exact h6.symm
+    · exact h7.symm
+    · intro Bi hBi hle
+      simp only [hle, if_true, inverseFmt, asFormat, Bool.false_eq_true, if_false, hBi, minInbreeding,
+        Option.map_some, minInbreedingOf, true_and, fmt]
+  | true =>
+    have hB : mapMat (fun x : ℚ => x / 2) G = asFormat true G := by
+      show _ = mapMat (fun x => half * x) G
+      rw [mapMat_half_eq_div]
+    have hfmt : (fmt true : ℚ → ℚ) = fun x => half * x := by funext x; simp [fmt]
+    obtain ⟨m1, m2⟩ := max_min_kinship_format G
+    obtain ⟨a1, a2, a3, a4, a5⟩ := axis_kinship_format G
+    apply specSumm_ok_of true G _ tag symmetric n
+    all_goals simp only [if_true, hB]
+    · exact hG.mapMat _
+    · rw [m1, h1]; rfl
+    · rw [a1, h2]; rfl
+    · rw [a3, h3]; rfl
+    · rw [m2, h4]; rfl
+    · rw [a2, h5]; rfl
+    · rw [a4, h6]; rfl
+    · exact ((mean_def G n hG).2).symm
+    · exact a5.symm
+    · show _ = meanCols (mapMat (fun x => half * x) G)
+      rw [meanCols_half, hfmt]
+    · rw [max_inbreeding_kinship_format, h7]; rfl
+    · intro Bi hBi hle
+      have hlen : (asFormat true G).length = G.length := by simp [asFormat, mapMat]
+      rw [hlen] at hle
+      simp only [hle, if_true]
+      refine ⟨hBi, ?_⟩
+      rw [min_inbreeding_kinship_format G n hG]
+      show (inverse (asFormat true G)).map minInbreedingOf = _
+      rw [hBi]
+      rfl
+
+open Spec in
+/-- **The Spec's positive-semidefiniteness test decides what it says** (soundness and completeness). -/
+theorem spec_psd_iff (shift : ℚ) (G : List (List ℚ)) (n : Nat) (hG : Rect n n G) :
+    Spec.psdShift shift G = true ↔ ∀ v : Nat → ℚ, 0 ≤ quad n G v + shift * ∑ i ∈ range n, v i ^ 2 :=
+  ⟨psdShift_sound shift G n hG, psdShift_complete shift G n hG⟩
+
+open Spec in
+/-- **The Spec of a freshly built matrix is sound: the model's own object passes it.**  For every estimator and
+    every input the property quantifies over (`Spec.Valid`: rectangular counts; molecular: ploidy 1 or 2 and a
+    marker, phased alleles 0/1 summing to the counts; VanRaden: frequencies in [0,1], one inside; Yang: all inside;
+    weighted: non-negative weights), the object the model builds — matrix, both views, every accessor pair, the
+    source's labels and group metadata — passes every check of `Spec.specCmatWith` against the independently
+    evaluated formula matrix: shape, formula, coancestry view, kinship exactly half, accessors, symmetry, positive
+    semidefiniteness (exact test), labels.  So the oracle demands nothing beyond what the theorems above prove. -/
+theorem spec_cmat_sound (e : Estimator) (g : Spec.Gm) (p w : List ℚ) (lab : Labels) (hv : Spec.Valid e g p w)
+    (G : List (List ℚ)) (hG : estimate e g.ploidy g.m w p g.X = .ok G) :
+    (Spec.specCmatWith g.n (Spec.formulaMat e g p w) lab (Spec.cmatOfModel g.n G lab) none).all (fun c => c.ok)
+      = true := by
+  obtain ⟨hlen, hrows, hv⟩ := hv
+  have hX : Rect g.n g.m g.X := ⟨hlen, hrows⟩
+  have hat2 : at2 (arr2 g.X) = entry g.X := by funext i k; exact at2_arr2 g.X i k
+  have hat1p : at1 (arr1 p) = fun k => p.getD k 0 := by funext k; exact at1_arr1 p k
+  have hat1w : at1 (arr1 w) = fun k => w.getD k 0 := by funext k; exact at1_arr1 w k
+  -- it suffices to know the matrix entrywise as the formula, symmetric and positive semidefinite
+  suffices h : Rect g.n g.n G ∧ (∀ i < g.n, ∀ j < g.n, entry G i j = entry (Spec.formulaMat e g p w) i j) ∧
+      (∀ i < g.n, ∀ j < g.n, entry G i j = entry G j i) ∧ ∀ v : Nat → ℚ, 0 ≤ quad g.n G v by
+    obtain ⟨hR, hE, hs, hp⟩ := h
+    have hF : G = Spec.formulaMat e g p w := rect_ext _ _ g.n g.n hR (rect_tabulate g.n _) hE
+    exact specCmatWith_ok_of g.n _ G lab none hR hF hs hp (fun s hs => by cases hs)
+  cases e with
+  | molecular =>
+    obtain ⟨hpl, hm, hph⟩ := hv
+    simp only [estimate] at hG
+    refine ⟨?_, ?_, molecular_symmetric g.ploidy g.n g.m g.X G hX hG, molecular_psd g.ploidy g.n g.m g.X G hX hG⟩
+    · obtain ⟨G', hG', hR, _⟩ := molecular_eq_twice_ibs_counts g.ploidy g.n g.m g.X hX hpl hm
+      rw [hG'] at hG; cases hG; exact hR
+    · intro i hi j hj
+      unfold Spec.formulaMat
+      rw [entry_tabulate g.n _ i j hi hj]
+      by_cases hphased : g.phased = true
+      · obtain ⟨hl, hXe, hrect, hbin⟩ := hph hphased
+        simp only [hphased, if_true]
+        have hg3 : ∀ ph ∈ g.g3, Rect g.n g.m ph := fun ph hph' => ⟨(hrect ph hph').1, (hrect ph hph').2⟩
+        obtain ⟨G', hG', _, hE⟩ := molecular_eq_twice_ibs g.g3 g.n g.m (hl ▸ hpl) hg3 hbin hm
+        rw [hl, ← hXe, hG] at hG'
+        cases hG'
+        rw [hE i hi j hj]
+        congr 1
+        funext a b c
+        rw [ibsPhased_eq_F]
+        congr 1
+        funext x y z
+        exact (at3_arr3 g.g3 x y z).symm
+      · simp only [hphased, Bool.false_eq_true, if_false]
+        obtain ⟨G', hG', _, hE⟩ := molecular_eq_twice_ibs_counts g.ploidy g.n g.m g.X hX hpl hm
+        rw [hG] at hG'; cases hG'
+        rw [hE i hi j hj, hat2]
+        rfl
+  | vanraden =>
+    obtain ⟨hp, hpl, h01, hpoly⟩ := hv
+    simp only [estimate] at hG
+    obtain ⟨G', hG', hR, hE⟩ := vanraden_def g.ploidy g.n g.m p g.X hX hp hpl h01 hpoly
+    rw [hG] at hG'; cases hG'
+    refine ⟨hR, ?_, vanraden_symmetric g.ploidy g.n g.m p g.X G hX hp hG,
+      vanraden_psd g.ploidy g.n g.m p g.X G hX hp h01 hG⟩
+    intro i hi j hj
+    unfold Spec.formulaMat
+    rw [entry_tabulate g.n _ i j hi hj, hE i hi j hj, hat2, hat1p]
+    rfl
+  | yang =>
+    obtain ⟨hp, hpl, hm, h01⟩ := hv
+    simp only [estimate] at hG
+    obtain ⟨G', hG', hR, hE⟩ := yangClosed_def g.ploidy g.n g.m p g.X hX hp hpl hm h01
+    rw [hG] at hG'; cases hG'
+    refine ⟨hR, ?_, yangClosed_symmetric g.ploidy g.n g.m p g.X G hX hp hG,
+      yangClosed_psd g.ploidy g.n g.m p g.X G hX hp (fun k hk => ⟨(h01 k hk).1.le, (h01 k hk).2.le⟩) hG⟩
+    intro i hi j hj
+    unfold Spec.formulaMat
+    rw [entry_tabulate g.n _ i j hi hj, hE i hi j hj, hat2, hat1p]
+    rfl
+  | gw =>
+    obtain ⟨hp, hw, hw0⟩ := hv
+    simp only [estimate] at hG
+    cases hG
+    obtain ⟨hR, hE⟩ := gw_def g.ploidy g.n g.m w p g.X hX hp hw
+    refine ⟨hR, ?_, gw_symmetric g.ploidy g.n g.m w p g.X hX hp hw, gw_psd g.ploidy g.n g.m w p g.X hX hp hw hw0⟩
+    intro i hi j hj
+    unfold Spec.formulaMat
+    rw [entry_tabulate g.n _ i j hi hj, hE i hi j hj, hat2, hat1p, hat1w]
+    rfl
+
+open Spec in
+/-- the re-ordering Spec is sound: the state the model of `reorder_taxa` / `sort_taxa` / `group_taxa` /
+    `select_taxa` (C03's `LabelMat` operations on the square schema) produces passes all four checks -/
+theorem spec_reorder_sound (op : Spec.ObjOp) (pre post : Obj ℚ) (h : Spec.applyObjOp op pre = .ok post) :
+    (Spec.specReorder op pre post).all (fun c => c.ok) = true := by
+  unfold Spec.specReorder
+  rw [h]
+  simp
+
+end round3
+
 /-! ### non-vacuity: concrete non-trivial inputs meet the hypotheses (evaluated by the kernel) -/
 section nonvacuity
 
@@ -1046,6 +1391,57 @@ example : IsBinary64 (3/2) ∧ halfSafe (3/2) ∧ FixesBinary64 id := by
   have h1 : (2 : ℚ) ^ (-1021 : ℤ) ≤ 1 := zpow_le_one_of_nonpos₀ (by norm_num) (by norm_num)
   have h2 : |(3 / 2 : ℚ)| = 3 / 2 := abs_of_pos (by norm_num)
   rw [h2]; linarith
+
+-- round 3 --------------------------------------------------------------------------------------------
+-- `inverse_kinship_is_twice` / `min_inbreeding_kinship_is_direct`: both eliminations succeed on G = [[2,1],[1,2]]
+example : inverseFmt false ([[2, 1], [1, 2]] : List (List ℚ)) = some [[2/3, -1/3], [-1/3, 2/3]] ∧
+    inverseFmt true ([[2, 1], [1, 2]] : List (List ℚ)) = some [[4/3, -2/3], [-2/3, 4/3]] ∧
+    minInbreeding true ([[2, 1], [1, 2]] : List (List ℚ)) = some (3/4) ∧
+    (1 : ℚ) / sumAll ([[4/3, -2/3], [-2/3, 4/3]] : List (List ℚ)) = 3/4 := by decide +kernel
+-- `estimate_reorder_taxa_commutes`: the cycle [2, 0, 1] on the worked example (names coded 0, 1, 2; groups 7, 5, 7);
+-- the object after `reorder_taxa` and the object computed from the re-ordered source
+example : (∀ i ∈ ([2, 0, 1] : List Nat), i < exX.length) ∧
+    (estimate Estimator.molecular 2 2 [] [] exX).toOption = some [[3/2, 3/2, 1/2], [3/2, 3/2, 1/2], [1/2, 1/2, 2]] := by
+  decide +kernel
+example : (reorderObj (([2, 0, 1] : List Nat).map Int.ofNat)
+      (toObj ([[3/2, 3/2, 1/2], [3/2, 3/2, 1/2], [1/2, 1/2, 2]] : List (List ℚ)) (some [0, 1, 2]) (some [7, 5, 7])
+        (some ⟨[5, 7], [0, 1], [1, 3], [1, 2]⟩))).toOption
+    = some (toObj [[2, 1/2, 1/2], [1/2, 3/2, 3/2], [1/2, 3/2, 3/2]] (some [2, 0, 1]) (some [7, 7, 5]) none) := by
+  decide +kernel
+example : (estimate Estimator.molecular 2 2 [] [] (Np.take [2, 0, 1] exX)).toOption
+    = some [[2, 1/2, 1/2], [1/2, 3/2, 3/2], [1/2, 3/2, 3/2]] := by decide +kernel
+-- the same object sorted / grouped by the model of `sort_taxa` / `group_taxa` (keys: group, then name)
+example : (groupObj (toObj ([[3/2, 3/2, 1/2], [3/2, 3/2, 1/2], [1/2, 1/2, 2]] : List (List ℚ)) (some [0, 1, 2])
+      (some [7, 5, 7]) none)).toOption
+    = some (toObj [[3/2, 3/2, 1/2], [3/2, 3/2, 1/2], [1/2, 1/2, 2]] (some [1, 0, 2]) (some [5, 7, 7])
+        (some ⟨[5, 7], [0, 1], [1, 3], [1, 2]⟩)) := by decide +kernel
+-- `molecular_int_width_contract`: counts of the worked example are within 0..2, 2 markers ≤ 127
+example : NoWrapUpTo (wrapBits 8) (2 ^ 7 - 1) ∧ NoWrapUpTo (wrapBits 64) (2 ^ 63 - 1) :=
+  ⟨wrapBits_noWrap 8 (by norm_num), wrapBits_noWrap 64 (by norm_num)⟩
+example : (∀ r ∈ ([[1, 2], [1, 2], [0, 0]] : List (List Int)), ∀ x ∈ r, 0 ≤ x ∧ x ≤ ((2 : Nat) : Int)) ∧
+    (molecularW (α := ℚ) (wrapBits 8) 2 2 [[1, 2], [1, 2], [0, 0]]).toOption
+      = some [[3/2, 3/2, 1/2], [3/2, 3/2, 1/2], [1/2, 1/2, 2]] := by decide +kernel
+-- a permutation for `yang_estimated_perm_commutes` / `gw_estimated_perm_commutes`
+example : ([1, 2, 0] : List Nat).Perm (List.range ([[1, 2], [1, 1], [0, 0]] : List (List ℚ)).length) := by decide
+
+-- the Spec oracles: the exact PSD test accepts [[2,1],[1,2]] and refutes the indefinite [[1,2],[2,1]]
+example : Spec.psdShift 0 ([[2, 1], [1, 2]] : List (List ℚ)) = true ∧
+    Spec.psdShift 0 ([[1, 2], [2, 1]] : List (List ℚ)) = false ∧
+    Spec.psdShift (3/2) ([[1, 2], [2, 1]] : List (List ℚ)) = true := by decide +kernel
+-- `spec_summ_sound`: the model reports summaries for G = [[2,1],[1,2]] in either format
+example : (Spec.summOfModel false ([[2, 1], [1, 2]] : List (List ℚ))).isSome = true ∧
+    (Spec.summOfModel true ([[2, 1], [1, 2]] : List (List ℚ))).isSome = true := by decide +kernel
+-- `spec_cmat_sound`: the worked example with p = (1/2, 1/4) is a valid VanRaden input, with weights (1, 2) a valid
+-- weighted one, and as counts a valid molecular one
+example : Spec.Valid Estimator.vanraden ⟨2, 3, 2, false, [], exX⟩ [1/2, 1/4] [] := by
+  refine ⟨rfl, by decide, rfl, by decide, by decide +kernel, ⟨0, by decide, by decide +kernel⟩⟩
+example : Spec.Valid Estimator.gw ⟨2, 3, 2, false, [], exX⟩ [0, 1] [1, 2] := by
+  refine ⟨rfl, by decide, rfl, rfl, by decide +kernel⟩
+example : Spec.Valid Estimator.molecular ⟨2, 3, 2, false, [], exX⟩ [] [] := by
+  refine ⟨rfl, by decide, Or.inr rfl, by decide, fun h => by cases h⟩
+-- `spec_reorder_sound`: the model accepts the re-ordering of the worked object
+example : (Spec.applyObjOp (.reorder [2, 0, 1]) (toObj ([[3/2, 3/2, 1/2], [3/2, 3/2, 1/2], [1/2, 1/2, 2]] : List (List ℚ))
+    (some [0, 1, 2]) (some [7, 5, 7]) none)).toOption.isSome = true := by decide +kernel
 
 end nonvacuity
 
